@@ -22,6 +22,10 @@ RelFor(label, i) ==
       [] label = "after-subst" -> << <<[name |-> <<120>>, restr |-> "substvar"], [name |-> Bin(i, 2), restr |-> "not-other"]>> >>
       [] label = "fallback"    -> << <<[name |-> Ext, restr |-> "not-target"], [name |-> Bin(i, 1), restr |-> "none"]>> >>
       [] label = "excluded"    -> << <<[name |-> Bin(i, 2), restr |-> "not-target2"], [name |-> Ext, restr |-> "none"]>> >>   \* "[!i386 !amd64]": not for the target -> no edge
+      [] label = "kbsd-fallback" -> << <<[name |-> Ext, restr |-> "only-kbsd-any"], [name |-> Bin(i, 2), restr |-> "none"]>> >>         \* first alternative is for another OS -> edge
+      [] label = "kbsd-only"     -> << <<[name |-> Bin(i, 2), restr |-> "only-kbsd-any"]>> >>                                           \* -> no edge
+      [] label = "not-kbsd"      -> << <<[name |-> Bin(i, 2), restr |-> "not-kbsd-any"]>> >>                                            \* -> edge
+      [] label = "linux-any"     -> << <<[name |-> Bin(i, 2), restr |-> "only-linux-any"]>> >>                                          \* -> edge
       [] label \in {"q-native", "q-any", "q-target", "versioned"} -> << <<[name |-> Bin(i, 2), restr |-> label]>> >>      \* -> edge
       [] label = "none"        -> <<>>
 Labelings == [Pairs -> Labels]
@@ -48,9 +52,11 @@ SelfVecs == {LET g == IF two THEN (IF first THEN <<SelfSrc(lb, f), Plain2>> ELSE
                 lb \in {"dep", "dep-arch", "unselected", "other-arch", "after-subst", "fallback", "excluded"}, f \in 1..3, two \in BOOLEAN, first \in BOOLEAN}
 \* qualified and versioned names: one edge between two sources (the rest unrelated), in both directions - the dependent
 \* source is listed first in one of them
-QualLabs == {[p \in Pairs |-> IF p = e THEN lb ELSE "none"] : e \in {<<1, 2>>, <<2, 1>>}, lb \in {"q-native", "q-any", "q-target", "versioned"}}
+QualLabs == {[p \in Pairs |-> IF p = e THEN lb ELSE "none"] : e \in {<<1, 2>>, <<2, 1>>},
+                lb \in {"q-native", "q-any", "q-target", "versioned", "kbsd-fallback", "kbsd-only", "not-kbsd", "linux-any"}}
 \* ... and a cycle closed through such a name
-QualCycles == {[p \in Pairs |-> IF p = <<1, 2>> THEN lb ELSE IF p = <<2, 1>> THEN "dep" ELSE "none"] : lb \in {"q-native", "q-any", "q-target", "versioned"}}
+QualCycles == {[p \in Pairs |-> IF p = <<1, 2>> THEN lb ELSE IF p = <<2, 1>> THEN "dep" ELSE "none"] :
+                  lb \in {"q-native", "q-any", "q-target", "versioned", "kbsd-fallback", "kbsd-only", "not-kbsd", "linux-any"}}
 ASSUME Emit(SetToSeq({Vec(lab, fo) : lab \in Labelings, fo \in BOOLEAN} \cup {SelfVec} \cup SelfVecs
                      \cup {Vec(lab, FALSE) : lab \in QualLabs \cup QualCycles}))
 =============================================================================
